@@ -487,13 +487,21 @@ pub fn conc_record(args: &Args) -> i32 {
     let threads = args.num("threads", 16) as usize;
     let rounds = args.num("rounds", 3) as usize;
     let ninputs = args.num("inputs", 6) as usize;
+    let reps = args.num("reps", 6) as usize;
     let mut rng = Rng::new(seed ^ 0xC14);
     let big = build_pool(&mut rng, ninputs, true, args.num("maxlen", 30000) as usize);
     let small = build_pool(&mut rng, 2, false, 2000);
     if big.is_empty() || small.is_empty() {
         return 2;
     }
-    let files: Vec<Vec<u8>> = (0..ninputs).map(|_| build_file(&random_segs_small(&mut rng), &big, &small, &mut rng).bytes).collect();
+    // files with large literal chunks next to streams (both directions of the container code)
+    let files: Vec<Vec<u8>> = (0..ninputs).map(|i| {
+        let mut segs = random_segs_small(&mut rng);
+        if i % 2 == 0 {
+            segs.as_array_mut().unwrap().push(json!({"c":"junk","n":70000 + i * 1000}));
+        }
+        build_file(&segs, &big, &small, &mut rng).bytes
+    }).collect();
     // function f on input x -> result hash
     let call = |f: usize, x: usize| -> u64 {
         let r = guarded(|| match f {
@@ -523,13 +531,39 @@ pub fn conc_record(args: &Args) -> i32 {
             writeln!(out, "{}", event("Seq", json!({"fn":f,"x":x,"hash":format!("{:016x}", seq[f][x])}))).unwrap();
         }
     }
+    // repeatability first: many small streams with unusual compressor settings (where the
+    // estimator's candidates tie), analysed repeatedly; no threads needed for this part
+    let ndet = args.num("det", 60) as usize;
+    for i in 0..ndet {
+        // the estimator derives a memory level from the fullest block, so the interesting
+        // streams are long enough to fill blocks at the memory level they were made with
+        let want = if i % 2 == 0 { 6000 } else { 120000 };
+        let mut plain = Vec::new();
+        while plain.len() < want / 2 {
+            let (_, p) = crate::gen::plaintext(&mut rng, want);
+            plain.extend_from_slice(&p);
+        }
+        let level = rng.range(1, 9) as i32;
+        let mem = *rng.pick(&[1, 3, 5, 6, 7, 7, 9, 9, 8]);
+        let s = crate::gen::zlib_raw(&plain, level, 0, 15, mem);
+        let h = |s: &[u8]| match guarded(|| decompress_deflate_stream(s, false, 0)) {
+            Ok(Ok(r)) => fnv(&r.plain_text) ^ fnv(&r.prediction_corrections).rotate_left(17) ^ r.compressed_size as u64,
+            _ => 3,
+        };
+        let x = 1000 + i;
+        writeln!(out, "{}", event("Seq", json!({"fn":2,"x":x,"hash":format!("{:016x}", h(&s))}))).unwrap();
+        for rep in 0..3 {
+            writeln!(out, "{}", event("End", json!({"t":0,"fn":2,"x":x,"round":-1,"rep":rep,"hash":format!("{:016x}", h(&s))}))).unwrap();
+        }
+    }
     let log: Mutex<Vec<Value>> = Mutex::new(Vec::new());
     for round in 0..rounds {
         let barrier = std::sync::Barrier::new(threads);
         let mut plan: Vec<(usize, usize)> = Vec::new();
         for t in 0..threads {
-            // round 0: everyone the same call; round 1: same function, distinct inputs; later: random mix
-            plan.push(match round { 0 => (2, 0), 1 => (0, t % ninputs), _ => (rng.below(4) as usize, rng.below(ninputs as u64) as usize) });
+            // rounds 0-3: every thread the same function (round = function) on inputs dealt out
+            // in turn, so that calls of one kind overlap; later rounds: random mixes
+            plan.push(if round < 4 { (round, t % ninputs) } else { (rng.below(4) as usize, rng.below(ninputs as u64) as usize) });
         }
         std::thread::scope(|s| {
             for t in 0..threads {
@@ -539,7 +573,7 @@ pub fn conc_record(args: &Args) -> i32 {
                 let call = &call;
                 s.spawn(move || {
                     barrier.wait();
-                    for rep in 0..2 {
+                    for rep in 0..reps {
                         let h = call(f, x);
                         log.lock().unwrap().push(json!({"t":t,"fn":f,"x":x,"round":round,"rep":rep,"hash":format!("{:016x}", h)}));
                     }
